@@ -32,7 +32,11 @@ func mkMulti(v *sym.V, name string, bs []*gen.B) (error, string) {
 		}
 		text += b.Text
 	}
-	switch v.Choice(name+".multi", 4) {
+	kind := v.Choice(name+".multi", 4)
+	if len(errs) == 1 && kind == 2 {
+		kind = 3 // the fmt form needs two %w
+	}
+	switch kind {
 	case 0:
 		return errors.Join(errs...), text
 	case 1:
@@ -50,7 +54,7 @@ func mkMulti(v *sym.V, name string, bs []*gen.B) (error, string) {
 // the documented text, and keep branch count, order and content across hops.
 func H_C13_Tree(v *sym.V) {
 	g := newG(v, sym.REGNN)
-	n := 2 + v.Choice("branches", v.Param("maxbranches", 2)-1)
+	n := 1 + v.Choice("branches", v.Param("maxbranches", 2)) // 1 .. maxbranches
 	var bs []*gen.B
 	for i := 0; i < n; i++ {
 		bs = append(bs, buildBranch(v, g, fmt.Sprintf("b%d", i)))
